@@ -314,3 +314,22 @@ def lib_unpack(data: t.Any, options: t.Any = None) -> t.Tuple[t.Any, bytes]:
 def normalise(a: t.Any) -> t.Any:
     """Canonical plain-data form (lists for sequences, tuples kept) - used for equality after JSON round trips."""
     return a
+
+
+def has_marker(o: t.Any) -> bool:
+    """Does a projection contain an ill-typed-field marker (a tuple whose first element is a '!...' word)?
+    (structural: a *value* that happens to spell '!type' is not a marker)"""
+    stack = [o]
+    while stack:
+        n = stack.pop()
+        if isinstance(n, tuple):
+            if n and isinstance(n[0], str) and n[0].startswith("!"):
+                return True
+            stack.extend(n)
+        elif isinstance(n, list):
+            stack.extend(n)
+        elif isinstance(n, dict):
+            if any(isinstance(k, str) and k.startswith("!") for k in n):
+                return True
+            stack.extend(n.values())
+    return False
